@@ -6,6 +6,11 @@ use crate::mon::{guarded, Ctx, PanicInfo};
 
 pub mod c01;
 pub mod c02;
+pub mod c03;
+pub mod c04;
+pub mod c05;
+pub mod c06;
+pub mod c07;
 pub mod c18;
 
 /// Budget for `parse`: far above the C18 bound, so that only a runaway trips it.
@@ -26,6 +31,11 @@ pub fn run(ctx: &mut Ctx) -> bool {
     match ctx.check.as_str() {
         "C01" => c01::run(ctx),
         "C02" => c02::run(ctx),
+        "C03" => c03::run(ctx),
+        "C04" => c04::run(ctx),
+        "C05" => c05::run(ctx),
+        "C06" => c06::run(ctx),
+        "C07" => c07::run(ctx),
         "C18" => c18::run(ctx),
         _ => return false,
     }
